@@ -267,14 +267,20 @@ pub fn check(prop: &str, tier_name: &str) -> i32 {
                 if sp == 0 {
                     continue;
                 }
-                let idx: Vec<usize> = if sp <= t.c16_sample {
+                // kinds whose space is small are enumerated completely even in the quick tier
+                let cap = if ["splice_eol", "literal_boundary", "crlf", "lost_line", "dup_line", "swap_lines", "lost_sector", "eof"].contains(&kind) {
+                    t.c16_sample.max(600)
+                } else {
+                    t.c16_sample
+                };
+                let idx: Vec<usize> = if sp <= cap {
                     (0..sp).collect()
                 } else {
                     // sample without replacement, always including both ends
                     let mut s = BTreeSet::new();
                     s.insert(0);
                     s.insert(sp - 1);
-                    while s.len() < t.c16_sample {
+                    while s.len() < cap {
                         s.insert(r.usize_below(sp));
                     }
                     s.into_iter().collect()
